@@ -433,7 +433,9 @@ Unser(s, raw) ==
                      ws == [i \in 1..Len(raw.v) |-> Unser(s.values, raw.v[i][2])]
                      c == Both(AllOk(ks), AllOk(ws))
                  IN IF c # "yes" THEN Wrap(c, Nil)
-                    ELSE IF \E i, j \in 1..Len(raw.v) : i < j /\ EqModRep(ks[i].v, ks[j].v) THEN Unspec
+                    \* map.go: two raw keys that denote the same key are rejected, whatever the Go type of the raw map
+                    \* (a map[string]any can hold "1" and "01" for an integer key just as a map[any]any holds 1 and "1")
+                    ELSE IF \E i, j \in 1..Len(raw.v) : i < j /\ EqModRep(ks[i].v, ks[j].v) THEN Rej
                     ELSE Ok(M("typed", [i \in 1..Len(raw.v) |-> <<ks[i].v, ws[i].v>>]))
       [] s.kind = "object" -> ObjUnser(s, raw)
       [] s.kind = "oneof" -> OneOfUnser(s, raw)
